@@ -196,6 +196,8 @@ def run(ctx):
         cmds = []
         files = {}
         for k, s in enumerate(specs[:(120 if quick else 1500)]):
+            if s in crashed:
+                continue        # already reported through the entry points
             fp = os.path.join(root, "in%d.ebnf" % k)
             open(fp, "wb").write(s)
             cmds.append(["-out", root, "-name", "p%d" % k, fp])
